@@ -351,12 +351,13 @@ def move_staticmethod_static_scope(source: str, preserve: Collection[str]) -> st
                 dec.lineno = lineno
                 dec.col_offset = classdef.col_offset
 
-            funcdef_static = ast.FunctionDef(
+            # def or async def
+            funcdef_static = type(funcdef)(
                 name=new_name,
                 args=funcdef_copy.args,
                 body=funcdef_copy.body,
                 decorator_list=decorator_list,
-                type_params=[],
+                type_params=getattr(funcdef_copy, "type_params", []),
                 returns=funcdef_copy.returns,
                 lineno=lineno,
                 col_offset=classdef.col_offset,
